@@ -22,6 +22,16 @@ pub trait NamingContext {
 
     /// Apply serde naming convention transformations
     fn apply_naming_convention(&self, field_name: &str, convention: RenameRule) -> String {
+        // RenameRule::CamelCase slices the PascalCase form with `[..1]`, which panics when that form
+        // is empty (e.g. `__`) or starts with a multi-byte character (e.g. `über`).
+        if convention == RenameRule::CamelCase {
+            let pascal = RenameRule::PascalCase.apply_to_field(field_name);
+            let mut chars = pascal.chars();
+            return match chars.next() {
+                Some(first) => first.to_ascii_lowercase().to_string() + chars.as_str(),
+                None => field_name.to_string(),
+            };
+        }
         convention.apply_to_field(field_name)
     }
 
